@@ -1,5 +1,5 @@
 """C10 lemmas over an abstract monoid (E, ·) -- associativity is law L7 (composition of step factors on a semiring carrier,
-plain matrix-product associativity), listed as an AXIOM in the evidence.
+plain matrix-product associativity), proved in lemmas/compose.py from the semiring axioms (it used to be an axiom).
 FOLD(s, n) = s(0)·s(1)·…·s(n-1) (left fold, n >= 1).  Inductions are explicit: base and step are separate goals, the step
 carries the hypothesis; FOLD's unfolding equations are instantiated at the points used."""
 import z3
@@ -12,7 +12,7 @@ SeqS = z3.DeclareSort("SeqId")
 at = z3.Function("at", SeqS, z3.IntSort(), E)
 FOLD = z3.Function("FOLD", SeqS, z3.IntSort(), E)  # FOLD(s, n), n >= 1
 FROM = z3.Function("FOLDFROM", SeqS, z3.IntSort(), z3.IntSort(), E)  # s(a)·…·s(a+b-1), b >= 1
-AX = ["L7 (axiom): composition of step-compatible factors is associative (semiring matrix product)"]
+AX = ["L7: composition of step-compatible factors is associative -- no longer an axiom: lemma compose.L7_composition_is_associative derives it from the semiring axioms (one joint state index; several state variables as one index on paper)"]
 
 
 def assoc(*terms):
